@@ -325,7 +325,8 @@ every behaviour of the file system, every fault, every interleaving with other p
 `openFds tr` as in `S`).  `Proofs.Own.ForkFds tr`: there are `ds`, `m`, `s` with `FdsAre tr (ds ++ [m, s])`, where
 
 * `ds` are at most two directory streams, each returned by a successful `opendir` of the trace (the maildir being
-  walked - `new`, `cur` or the stdin spool - and, after a move or flag action, the maildir the message is in now);
+  walked - `new`, `cur` or the stdin spool - and, after a move or flag action, the maildir the message is in now; at the
+  `fork` of a `command` CONDITION, which runs while the rules are evaluated, only the first);
 * `m` is the descriptor of the message, returned by a successful `openat(O_RDONLY|O_CLOEXEC)` of the trace;
 * `s` is the descriptor `exec()` makes the child's standard input (`Proofs.Own.ChildStdin tr s`): the call just before
   the `fork` is the successful `open("/dev/null", O_RDONLY|O_CLOEXEC)` that returned `s`, or it is the successful
@@ -336,8 +337,10 @@ and nothing else: no descriptor of an earlier message, no write descriptor of a 
 stream of the configuration file, no third directory. -/
 
 /-- **Descriptor hygiene.**  For every configuration, registry, input and for ARBITRARY results of all calls: at every
-`fork` issued by a run of `main` - maildir mode or stdin mode, whatever actions precede the exec, inside or outside an
-attachment block - the descriptors the run has created and not released are exactly those `ForkFds` lists. -/
+`fork` issued by a run of `main` - maildir mode or stdin mode, the `fork` of an `exec` action (whatever actions precede
+the exec, inside or outside an attachment block) as well as the `fork` of a `command` condition during the evaluation of the
+rules (`Model.evalP`: the table there is the directory stream of the maildir, the descriptor of the message and `/dev/null`,
+`Proofs.Own.fds_evalP`) - the descriptors the run has created and not released are exactly those `ForkFds` lists. -/
 theorem C13_fd_hygiene (env : PEnv) (orc : EvalOracles) (ok : Bool) (conf : List ConfBlock) (files : Files) (input : Bytes)
     (orcl : Nat → Call → Res) (j : Nat) (r : Res)
     (h : (runOracle orcl (mainP env orc ok conf files input) 0 []).2[j]? = some (.fork, r)) :
@@ -371,6 +374,18 @@ example :
 
 example : Proofs.Own.ForkFds ((Proofs.FdsEx.trace false).take 8) ∧ Proofs.Own.ForkFds ((Proofs.FdsEx.trace true).take 9) :=
   ⟨C13_fd_hygiene _ _ _ _ _ _ _ 8 _ Proofs.FdsEx.tables.1, C13_fd_hygiene _ _ _ _ _ _ _ 9 _ Proofs.FdsEx.tables.2.2.2.2.1⟩
+
+/-- Non-vacuity for the `fork` of a `command` condition (`Proofs.FdsEx.tablesC`): `match command "false" move "/d"` over
+the same maildir; the `fork` of evaluation is call 8, the table there is `[(4, opendir /m/new), (5, openat 1.h),
+(6, open /dev/null)]`, `/dev/null` opened by the call before; the child exits 1, the condition does not match, nothing is
+moved, at the end nothing is open. -/
+example :
+    Proofs.FdsEx.traceC[8]? = some (.fork, .ok 0) ∧
+    openFdsBy (Proofs.FdsEx.traceC.take 8) =
+      [(4, .opendir Proofs.exNew), (5, .openRd 4 Proofs.exName), (6, .openPath (ofString "/dev/null"))] ∧
+    openFds Proofs.FdsEx.traceC = [] ∧ Proofs.Own.ForkFds (Proofs.FdsEx.traceC.take 8) :=
+  ⟨Proofs.FdsEx.tablesC.2.1, Proofs.FdsEx.tablesC.2.2.1, Proofs.FdsEx.tablesC.2.2.2.2,
+   C13_fd_hygiene _ _ _ _ _ _ _ 8 _ Proofs.FdsEx.tablesC.2.1⟩
 
 /-- The constructors and their flags: which calls create a descriptor, and which of these are close-on-exec forms. -/
 theorem C13_cloexec_forms (c : Call) :
